@@ -6,6 +6,11 @@
 //! Real code under test: `Frame::from_reader`, its caching wrapper, deku's `Reader`, std's
 //! `read_exact` / `read_to_end`.
 
+// the reader traits the decoder is generic over: std's in the std build, the `no_std_io2` ones
+// (which deku re-exports as `deku::no_std_io`) in the alloc-only build
+#[cfg(feature = "alloc_only")]
+use no_std_io::io::{self, Read, Seek, SeekFrom};
+#[cfg(not(feature = "alloc_only"))]
 use std::io::{self, Read, Seek, SeekFrom};
 use std::panic::{catch_unwind, AssertUnwindSafe};
 
@@ -258,7 +263,11 @@ impl Engine for ReaderEngine {
     type Sc = RScenario;
 
     fn engine_name(&self) -> &'static str {
-        "R"
+        if cfg!(feature = "alloc_only") {
+            "Ra"
+        } else {
+            "R"
+        }
     }
     fn property(&self) -> &'static str {
         "C19"
@@ -267,6 +276,9 @@ impl Engine for ReaderEngine {
         19
     }
     fn repeat_signature(&self) -> Option<&'static str> {
+        if cfg!(feature = "alloc_only") {
+            return None;
+        }
         Some("C19:result-depends-on-earlier-decodes-in-the-process")
     }
 
